@@ -13,7 +13,7 @@ use crate::dictgen::DictOpts;
 use crate::env::Place;
 use crate::report::{clip, guard, Report};
 use crate::rng::{fnv, Rng};
-use crate::scen::{build_world, mode_name, observe, Obs, Tok, World, MODES};
+use crate::scen::{mode_name, observe, Obs, Tok, World, MODES};
 use crate::textgen;
 use crate::Ctx;
 
@@ -107,6 +107,7 @@ fn gen_file(rng: &mut Rng, keys: &[String]) -> String {
     for i in 0..n {
         match rng.below(6) {
             0 => {} // blank line
+            1 => s.push_str(rng.s(&["123", "1,000", "10.32", "0", "3,21"])),
             _ => {
                 for _ in 0..1 + rng.below(3) {
                     s.push_str(&textgen::text_from_keys(rng, keys, 5).replace(['\n', '\r'], ""));
@@ -142,7 +143,22 @@ pub fn run(ctx: &Ctx, rep: &mut Report) {
         let mut rng = Rng::derive(ctx.seed, 0xC19, wi);
         rep.progress_idx(wi, "C19 scenario");
         let dopts = DictOpts { max_entries: 30, ..DictOpts::default() };
-        let world = match guard(|| build_world(&mut rng, &dopts, None, true, Place::Owned)) {
+        let world = match guard(|| {
+            let matrix = crate::dictgen::gen_matrix(&mut rng, &dopts);
+            let mut sys = crate::dictgen::gen_system(&mut rng, &dopts, &matrix);
+            let pool = crate::dictgen::pos_pool();
+            let nid = matrix.nid() as i64;
+            // numeral-POS words so that numeral joining really happens (the CLI's -w must still report it)
+            for c in "0123,.".chars() {
+                let p = if c == ',' || c == '.' { &pool[2] } else { &pool[1] };
+                sys.entries.push(crate::model::Entry::simple(&c.to_string(), rng.range(0, nid - 1) as i16, rng.range(0, nid - 1) as i16, rng.range(0, 500) as i16, p));
+            }
+            let mut p = crate::scen::PluginOpts::random(&mut rng, &matrix, true);
+            if wi % 2 == 0 {
+                p.join_numeric = Some(true);
+            }
+            crate::scen::build_world_from(&mut rng, &dopts, matrix, sys, p, Place::Owned)
+        }) {
             Ok(Ok(w)) => w,
             Ok(Err(e)) => {
                 rep.notes.push(format!("scenario {}: {}", wi, clip(&e, 200)));
@@ -166,6 +182,10 @@ pub fn run(ctx: &Ctx, rep: &mut Report) {
             users.push(name);
         }
         cfg["userDict"] = json!(users);
+        // the projection option is Python-only
+        if let Some(p) = [None, Some("surface"), Some("normalized"), Some("reading"), Some("dictionary")][rng.below(5)] {
+            cfg["projection"] = json!(p);
+        }
         world.res.write("sudachi.json", &serde_json::to_string_pretty(&cfg).unwrap());
         let keys = world.keys();
         let describe = || json!({"scenario": wi, "config": cfg, "world": world.describe(false)});
@@ -216,7 +236,7 @@ pub fn run(ctx: &Ctx, rep: &mut Report) {
                         rep.count("python_driver_errors", 1);
                     }
                 } else if let Ok(v) = serde_json::from_str::<Value>(stdout.trim()) {
-                    for k in ["cases", "morphemes", "fields_compared", "splits_compared", "lookups", "history_ops", "history_probes", "python_exceptions", "thread_results"] {
+                    for k in ["cases", "morphemes", "fields_compared", "splits_compared", "lookups", "history_ops", "history_probes", "python_exceptions", "thread_results", "projection_checks"] {
                         rep.count(&format!("py_{}", k), v[k].as_u64().unwrap_or(0));
                     }
                     if let Some(ms) = v["mismatches"].as_array() {
